@@ -1,3 +1,4 @@
+import RactorModel.Extracted
 import RactorModel.Lemmas.LifeC01
 
 /-!
@@ -52,21 +53,33 @@ theorem no_overlap (s : Life.C01.St) (cb1 cb2 : Cb) (a1 a2 : Arg) (rest : List E
     rw [accepts_cons, Life.C01.next_enter_of_isOpen s1 cb2 a2 (Life.C01.next_enter_isOpen h1)]
     rfl
 
+/-! ### E-SRC obligations -/
+
+/-- The thread-local runtime (`thread_local/inner.rs`) runs the same loop: its `processing_loop`,
+`process_message`, `handle_signal`, `do_post_start`, `do_post_stop` are token-identical to the
+`actor.rs` functions the model follows (modulo the boxed loop future). -/
+theorem src_thread_local_twins :
+    Extracted.threadLocalTwins =
+      [("processing_loop", true), ("process_message", true), ("handle_signal", true),
+       ("do_post_start", true), ("do_post_stop", true)] := by decide
+
+theorem src_status : Extracted.statusDiscriminants = Life.statusTable := by decide
+
 /-! ### Non-vacuity and rejection examples -/
 
 /-- A full graceful life: spawn, pre_start ok, post_start ok, one message, stop, post_stop. -/
 def demoOps : List AOp :=
-  [.spawn none, .resume ⟨[], .ok⟩, .pollSpawn true, .poll, .resume ⟨[.sendSelf 7], .ok⟩, .poll,
+  [.spawn none none true, .resume ⟨[], .ok⟩, .pollSpawn true, .poll, .resume ⟨[.sendSelf 7], .ok⟩, .poll,
    .resume ⟨[], .tick⟩, .poll, .stop none, .resume ⟨[], .ok⟩, .poll, .resume ⟨[], .ok⟩, .poll]
 
-example : trace 0 demoOps =
+example : traceNoSnap 0 demoOps =
     [.enter .preStart .none, .tick .preStart, .exit .preStart .ok, .spawnRet .ok,
      .enter .postStart .none, .tick .postStart, .sendRet true 7 true, .exit .postStart .ok,
      .enter .handle (.msg 7), .tick .handle, .stopRet false .none true, .tick .handle, .exit .handle .ok,
      .enter .postStop .none, .tick .postStop, .exit .postStop .ok, .join .ok] := by decide
 
 /-- A kill while a handler is suspended cancels it; no `post_stop`. -/
-example : trace 0 [.spawn none, .resume ⟨[], .ok⟩, .pollSpawn true, .poll, .resume ⟨[], .ok⟩,
+example : traceNoSnap 0 [.spawn none none true, .resume ⟨[], .ok⟩, .pollSpawn true, .poll, .resume ⟨[], .ok⟩,
       .send 1, .poll, .kill, .poll] =
     [.enter .preStart .none, .tick .preStart, .exit .preStart .ok, .spawnRet .ok,
      .enter .postStart .none, .sendRet false 1 true, .tick .postStart, .exit .postStart .ok,
@@ -89,3 +102,5 @@ end C01
 #print axioms C01.lifecycle
 #print axioms C01.invariant
 #print axioms C01.no_overlap
+#print axioms C01.src_thread_local_twins
+#print axioms C01.src_status
